@@ -308,3 +308,10 @@ mod tests {
 #[cfg(feature = "verif-hooks")]
 #[path = "verif_hooks_rotorib.rs"]
 pub mod verif_hooks_rotorib;
+
+/// Verification hooks for the area ReconfUnits (feature `verif-hooks`,
+/// add-only); a child module because `Filter`'s fields and the runner are
+/// private here.
+#[cfg(feature = "verif-hooks")]
+#[path = "verif_hooks_reconfunits.rs"]
+pub mod verif_hooks_reconfunits;
